@@ -195,6 +195,13 @@ pub fn main_for(pid: &str) {
                         if !matches!(outcome, Outcome::Ok(_)) { out.fail(&case, "repair-failed", &format!("step {}: `{}` returned {}", step, op_str(&op), outcome_str(&outcome))); }
                         if content(&st) != before_content { out.fail(&case, "repair-changed-content", &format!("step {}: `{}` changed a name, attribute or content", step, op_str(&op))); }
                         let after = decls(&st);
+                        for (e, d2) in &after {
+                            let d = before_decls.get(e).cloned().unwrap_or_default();
+                            for x in d2.iter().filter(|x| !d.contains(x)) {
+                                // the XML namespace is bound to the prefix xml and to nothing else (Namespaces in XML, section 3)
+                                if x.1 == crate::spell::XML_NS { out.fail(&case, "repair-bound-xml-namespace", &format!("step {}: `{}` declared xmlns:{}=\"{}\" on {}", step, op_str(&op), x.0, x.1, hs(*e))); }
+                            }
+                        }
                         for (e, d) in &before_decls {
                             if let Some(d2) = after.get(e) {
                                 if !d.iter().all(|x| d2.contains(x)) { out.fail(&case, "repair-altered-declaration", &format!("step {}: `{}` removed or altered a declaration of {}", step, op_str(&op), hs(*e))); }
